@@ -5,6 +5,7 @@
   ```go
   maxRetries := 0
   for {
+      if recvFailed.Load() { return replayWait.Error() (or "a pipelined batch failed") }   // nothing is sent
       err := sendFuncOnce(...)
       if err == nil { return err }
       maxRetries++
@@ -68,9 +69,17 @@ def sendFunc (m : SMode) : List (Option SErr) → Nat → Nat × Final
         (n + 1, f)
       else (1, direct e)
 
+/-- `recvFailed` (set by the pipelined receiver's `handleError` before it closes the run) is
+    tested at the top of every iteration of `sendFunc`'s loop: once it is set nothing more is
+    sent — no batch and no resume position. `sendFunc` above is the loop with the flag unset;
+    the flag can only cut it short. -/
+def sendFuncR (m : SMode) (recvFailed : Bool) (outs : List (Option SErr)) : Nat × Final :=
+  if recvFailed then (0, .other) else sendFunc m outs 0
+
 /-- pipelined mode: the reply of a dispatched batch is read by the receiver
     goroutine, whose `handleError` closes the run — no re-send:
     ```go
+    recvFailed.Store(true)
     if MOVED || ASK || CROSSSLOT { if CanTransaction && IsCluster { err = handleDirectError(err) } }
     replayWait.Close(err)
     ``` -/
